@@ -14,6 +14,10 @@
 //!   `ti ins=<view>[|<view>] specs=<idx>:<perm>;…` (`r` = reverse) → `shape=… data=…` | `err` | `panic`
 //!       nested `TransformInputs` wrappers around Identity (one input) or Sub (two inputs): transform lists over
 //!       several inputs, indices past the end (MissingInputs), invalid permutations (panic).
+//!   `tir <Add|Sub|Mul> a=<view> b=<view> specs=<idx>:<perm>;…` → `shape=… data=…` | `err` | `panic`
+//!       `TransformInputs(op)::run_in_place` with operand 0 passed as the owned in-place value (explicit
+//!       non-overlapping strides) and `ctx.inputs() = [None, b]`: transforms on input 1 apply, transforms
+//!       on input 0 or past the end are `MissingInputs`.
 //!   `tip ips=<list> idx=<list>` → `ips=<list>`   `TransformInputs::in_place_inputs` of nested wrappers.
 //!   `cp a=<base>@<dims>` → `shape=… data=…`   `TensorView::to_tensor()` (copy_into_slice / blocked transpose
 //!       copy) of a rank 2–4 view whose inner sizes cross the tile / block boundaries: logical row-major order.
@@ -525,14 +529,29 @@ fn im2col_case(cx: &mut Ctx, rng: &mut Rng) {
         5 => (h * w, 0, 1),              // broadcast along H
         _ => (rng.usize_below(30), rng.usize_below(12), rng.usize_below(5)),
     };
-    let steps = (*rng.pick(&[1usize, 4, 8, 16]), *rng.pick(&[1usize, 2, 4]));
+    let mut steps = (*rng.pick(&[1usize, 4, 8, 16]), *rng.pick(&[1usize, 2, 4]));
+    // panics of the real function: empty image, zero step
+    let (c, h, w) = match rng.below(60) {
+        0 => (0, h, w),
+        1 => (c, 0, w),
+        2 => (c, h, 0),
+        3 => {
+            steps.0 = 0;
+            (c, h, w)
+        }
+        4 => {
+            steps.1 = 0;
+            (c, h, w)
+        }
+        _ => (c, h, w),
+    };
     let req = format!(
         "im2col c={c} h={h} w={w} k={kh},{kw} pads={} str={sh},{sw} dil={dy},{dx} ist={sc},{sth},{stw} steps={},{}",
         hcommon::join(pads.iter(), ","),
         steps.0,
         steps.1
     );
-    let len = (c - 1) * sc + (h - 1) * sth + (w - 1) * stw + 1;
+    let len = if c == 0 || h == 0 || w == 0 { 1 } else { (c - 1) * sc + (h - 1) * sth + (w - 1) * stw + 1 };
     let data = vec![0f32; len];
     let r = hcommon::catch(|| {
         let img = rten_tensor::NdTensorView::<f32, 3>::from_slice_with_strides([c, h, w], &data[..], [sc, sth, stw]).map_err(|e| format!("{e:?}"))?;
@@ -569,7 +588,21 @@ fn cp_case(cx: &mut Ctx, rng: &mut Rng) {
     if rng.chance(1, 3) {
         sh.insert(0, 1 + rng.usize_below(2));
     }
-    let (base, dims) = rand_view(rng, &sh);
+    let (mut base, mut dims) = rand_view(rng, &sh);
+    if rng.chance(1, 2) {
+        // the shapes that take the real `copy_blocked`: column-major storage whose row pitch (the
+        // stride of the last axis) is a multiple of 16 and ≥ 32; row counts not divisible by the
+        // tile size 4 and columns crossing the 64-block exercise the edge loops
+        let rows = *rng.pick(&[1usize, 3, 4, 5, 7, 9, 17, 65]);
+        let cols = *rng.pick(&[1usize, 3, 4, 5, 7, 16, 63, 64, 65, 70]);
+        let pitch = *rng.pick(&[32usize, 48, 64, 80, 128]);
+        if rows <= pitch {
+            sh = vec![rows, cols];
+            base = rng.usize_below(3);
+            dims = vec![(rows, 1), (cols, pitch)];
+            cx.out.bucket("cp:blocked-shape");
+        }
+    }
     if storage_len(base, &dims) > 40_000 {
         return;
     }
@@ -734,6 +767,76 @@ fn ti_case(cx: &mut Ctx, rng: &mut Rng) {
     cx.out.case(&req, &ans, None, ans.starts_with("shape"));
 }
 
+fn tir_case(cx: &mut Ctx, rng: &mut Rng) {
+    let fin = loop {
+        let s = rshape(rng, 3, 0);
+        if numel(&s) <= 36 {
+            break s;
+        }
+    };
+    let k = 1 + rng.usize_below(2);
+    let mut specs: Vec<(usize, Option<Vec<usize>>)> = vec![];
+    for _ in 0..k {
+        let idx = if rng.chance(1, 8) { *rng.pick(&[0usize, 2]) } else { 1 };
+        if rng.chance(1, 4) {
+            specs.push((idx, None));
+        } else {
+            let mut p: Vec<usize> = (0..fin.len()).collect();
+            rng.shuffle(&mut p);
+            specs.push((idx, Some(p)));
+        }
+    }
+    let mine: Vec<Option<Vec<usize>>> = specs.iter().filter(|s| s.0 == 1).map(|s| s.1.clone()).collect();
+    let sb = if rng.chance(1, 10) { fin.clone() } else { unpermute(&fin, &mine) };
+    let (bb, db) = rand_view(rng, &sb);
+    // owned operand: contiguous, permuted or scaled strides (non-overlapping)
+    let n = fin.len();
+    let mut order: Vec<usize> = (0..n).collect();
+    if rng.chance(1, 2) {
+        rng.shuffle(&mut order);
+    }
+    let scale = 1 + rng.usize_below(2);
+    let mut stra = vec![0usize; n];
+    let mut acc = scale;
+    for &d in order.iter().rev() {
+        stra[d] = acc;
+        acc *= fin[d].max(1);
+    }
+    let da: Vec<(usize, usize)> = fin.iter().copied().zip(stra.iter().copied()).collect();
+    let opname = *rng.pick(&["Add", "Sub", "Mul"]);
+    let pstr: Vec<String> = specs
+        .iter()
+        .map(|(i, p)| match p {
+            None => format!("{i}:r"),
+            Some(p) => format!("{i}:{}", if p.is_empty() { "e".to_string() } else { hcommon::join(p.iter(), ",") }),
+        })
+        .collect();
+    let req = format!("tir {opname} a={} b={} specs={}", view_str(0, &da), view_str(bb, &db), pstr.join(";"));
+    let stor_a: Vec<i32> = (0..storage_len(0, &da) as i32).map(|i| i + 1).collect();
+    let stor_b: Vec<i32> = (0..storage_len(bb, &db) as i32 + 2).map(|i| (i + 1) * 100).collect();
+    let case = Case { name: "tir", onnx: opname, domain: "", attrs: vec![], inputs: vec![Some(ti(rng, &[])), Some(ti(rng, &[]))], n_out: 1, data_inputs: vec![] };
+    let mut op = cx.cache.get(&case).expect("inner loads");
+    for (i, p) in specs.iter().rev() {
+        op = rten::verif::transform_inputs_permute(op, *i, p.clone());
+    }
+    let r = hcommon::catch(|| {
+        let ta = Tensor::<i32>::from_data_with_strides(&fin[..], stor_a.clone(), &stra[..]).map_err(|e| format!("{e:?}"))?;
+        let vb = rten_tensor::TensorView::from_slice_with_strides(&sb[..], &stor_b[bb..], &db.iter().map(|d| d.1).collect::<Vec<_>>()[..])
+            .map_err(|e| format!("{e:?}"))?;
+        let owned: Value = ta.into();
+        let others: Vec<Option<ValueView>> = vec![None, Some(ValueView::from(vb))];
+        let o = run_op_in_place(&*op, vec![(0, owned)], &others, 1)?;
+        Ok::<_, String>(canon(&o[0]))
+    });
+    let ans = match r {
+        Ok(Ok(c)) => format!("shape={} data={}", shp(&c.shape), ints(&c.bits.iter().map(|&b| b as i32).collect::<Vec<_>>())),
+        Ok(Err(_)) => "err".to_string(),
+        Err(_) => "panic".to_string(),
+    };
+    cx.out.bucket(&format!("tir:{}", ans.split('=').next().unwrap_or("")));
+    cx.out.case(&req, &ans, None, ans.starts_with("shape"));
+}
+
 /// `TransformInputs::in_place_inputs` of nested wrappers.
 fn tip_case(cx: &mut Ctx, rng: &mut Rng) {
     let (inner_name, n_in): (&'static str, usize) = *rng.pick(&[("Sub", 2), ("Add", 2), ("Less", 2), ("Identity", 1)]);
@@ -814,6 +917,7 @@ fn run(args: &Args) {
         ti_case(&mut cx, &mut rng);
         red_case(&mut cx, &mut rng);
         tip_case(&mut cx, &mut rng);
+        tir_case(&mut cx, &mut rng);
         im2col_case(&mut cx, &mut rng);
     }
     for _ in 0..n_glue / 30 {
